@@ -469,7 +469,7 @@ func (e *vfEnv) exec(a vfAct) (vfAct, *vfConc) {
 			}
 		case a.D >= 50:
 			dur = []time.Duration{time.Hour, 24 * time.Hour, 1000 * time.Hour, 2000000 * time.Hour,
-				90 * time.Second}[e.rng.Intn(5)]
+				15 * time.Minute}[e.rng.Intn(5)]
 		default:
 			if !e.anchored {
 				e.anchored, e.anchorL, e.anchorT = true, e.clock, t0
